@@ -131,7 +131,8 @@ def dec_string(rng):
     if rng.random() < 0.3 and "." in s:
         s += "0" * rng.randint(1, 4)
     if rng.random() < 0.4:
-        s += rng.choice("eE") + rng.choice(("", "+", "-")) + str(rng.choice((0, 1, 2, 5, 20, 100)))
+        # (now and then far beyond the range of a double: the arithmetic is decimal, not floating point)
+        s += rng.choice("eE") + rng.choice(("", "+", "-")) + str(rng.choice((0, 1, 2, 5, 20, 100)) if rng.random() < 0.9 else rng.choice((308, 324, 350, 400, 1000)))
     if rng.random() < 0.4:
         s = "-" + s
     return s
